@@ -41,7 +41,8 @@ func (t *batchTarget) BatchMode(start bool) {
 	}
 }
 
-var namePool = []string{"a", "a.b", "a.b.c", "a.bc", "x", "a..b", ".a.", "", "x.y", "a.b.c.d", "..", "ab", "a.b.", "x.y.z", "b"}
+var namePool = []string{"a", "a.b", "a.b.c", "a.bc", "x", "a..b", ".a.", "", "x.y", "a.b.c.d", "..", "ab", "a.b.", "x.y.z", "b",
+	"a...b", "a....b.c", "...x", "x...y...", "....", "a.b...c"}
 
 func gen(r *hx.Rand, n int) []string {
 	var out []string
@@ -55,6 +56,32 @@ func gen(r *hx.Rand, n int) []string {
 			nops = r.Range(40, 80)
 		}
 		ops := make([]string, 0, nops)
+		if c%5 == 4 {
+			// a scripted phase first: batch targets registered, complete (possibly nested) batches, then every batch target
+			// unregistered (or the notifier disabled / merged) and batches again
+			w := r.Intn(2)
+			for i := 0; i < r.Range(1, 3); i++ {
+				ops = append(ops, fmt.Sprintf("reg %d %d %d %s", w, r.Range(3, 5), r.Intn(4), hx.Hex(namePool[r.Intn(5)])))
+			}
+			depth := r.Range(1, 3)
+			for i := 0; i < depth; i++ {
+				ops = append(ops, fmt.Sprintf("start %d", w))
+			}
+			for i := 0; i < depth; i++ {
+				ops = append(ops, fmt.Sprintf("end %d", w))
+			}
+			switch r.Intn(4) {
+			case 0, 1:
+				for t := 3; t < 6; t++ {
+					ops = append(ops, fmt.Sprintf("unreg %d %d", w, t))
+				}
+			case 2:
+				ops = append(ops, fmt.Sprintf("from %d", 1-w))
+			default:
+				ops = append(ops, fmt.Sprintf("reg %d %d 1 %s", w, r.Intn(3), hx.Hex("x")))
+			}
+			ops = append(ops, fmt.Sprintf("start %d", w), fmt.Sprintf("notify %d %s", w, hx.Hex("a.b")), fmt.Sprintf("end %d", w))
+		}
 		for k := 0; k < nops; k++ {
 			w := r.Intn(2)
 			switch r.Intn(16) {
